@@ -301,6 +301,56 @@ func runC06(env *Env) {
 		}
 		in.Close()
 	}
+	// a token the scheduler ran late: every alternative takes its termination channel either before the winner is
+	// determined or only afterwards (hook VerifEventGatewayLookups) — each of them must find its withdrawal notice
+	var litems []string
+	for _, n := range []int{2, 3, 4} {
+		for mask := 0; mask < 1<<(n-1); mask++ {
+			early := make([]bool, n)
+			en := make([]int, n)
+			for j := 1; j < n; j++ {
+				early[j] = mask&(1<<(j-1)) != 0
+				en[j] = b2i(early[j])
+			}
+			cs := fmt.Sprintf("%d alternatives, alternative 0 wins, the others reach their select before the determination: %v", n, early[1:])
+			env.Current(cs)
+			p, extra := c06Prog(n)
+			defs, err := ParseDefs(p.XML(extra))
+			must(err)
+			in, err := StartInst(defs, InstOpt{NoStart: true})
+			must(err)
+			var gw schema.FlowNodeInterface
+			if el, found := defs.FindBy(schema.ExactId("EG")); found {
+				gw, _ = el.(schema.FlowNodeInterface)
+			}
+			node, found := in.P.FlowNodeMapping().ResolveElementToFlowNode(gw)
+			if !found {
+				rep.Violate("C06-withdrawal", cs, "event-based gateway node not found")
+				in.Close()
+				continue
+			}
+			got, err := bpmn.VerifEventGatewayLookups(in.Ctx, node, early)
+			rep.Evaluations++
+			rep.Nontrivial++
+			rep.Count("late_lookup")
+			if err != nil {
+				rep.Violate("C06-withdrawal", cs, "hook: "+err.Error())
+				in.Close()
+				continue
+			}
+			gn := make([]int, n)
+			for j := 1; j < n; j++ {
+				gn[j] = b2i(got[j])
+				if !got[j] {
+					rep.Violate("C06-withdrawal", cs, fmt.Sprintf("alternative %d took its termination channel %s the determination and found no withdrawal notice: it stays in its select until its own event arrives",
+						j, map[bool]string{true: "before", false: "after"}[early[j]]))
+				}
+			}
+			litems = append(litems, fmt.Sprintf("(%s,%s)", natList(en), natList(gn)))
+			in.Close()
+		}
+	}
+	env.WriteCases(rep, "_lookup", "Corr.C06corr", "list nat * list nat", litems, "c06_lookup_mismatches")
 	env.WriteCases(rep, "", "Corr.C06corr", "nat * list nat * nat * list nat * list nat", items, "c06_mismatches")
 	env.WriteReport(rep)
 }
